@@ -823,6 +823,11 @@ def corpus_lines():
 def run(ctx):
     setup(ctx)
     ctx.try_proof()
+    try:
+        vlib.coq_make(["Fd/TableExamples.vo"])                # non-vacuity examples next to the theorems
+        ctx.extra["examples"] = "Fd/TableExamples.v builds"
+    except vlib.BrokenTie as bt:
+        ctx.tie_broken("the non-vacuity examples Fd/TableExamples.v no longer check", bt.detail)
     exe = vlib.harness_build(["c11"], features=("verif_hooks",))["c11"]
     model = vlib.ocaml_build("c11")
     rn = Runner(ctx, exe, model)
